@@ -220,7 +220,7 @@ pub fn make_case(progs: &[Vec<L>], mailbox: Mailbox, yields: u8, bound: Option<u
         desc,
         exec: ExecCfg::default(),
         bound,
-        scene: Box::new(ProgScene { spawn: SpawnCfg::plain(mailbox), roles: vec![role], clients, extra: X { nsub }, oracle }),
+        scene: Box::new(ProgScene { attach: crate::progscene::Attach::None, spawn: SpawnCfg::plain(mailbox), roles: vec![role], clients, extra: X { nsub }, oracle }),
     }
 }
 
